@@ -566,7 +566,7 @@ class Evaluator:
             # holds the *same array object* sees the new contents (i = XX; i += YY changes XX).  Python scalars, Times and
             # explicit per-element arrays (which model their own stores) are excluded.
             if isinstance(cur, Num) and isinstance(v, Num) and cur is not v and cur.kind != "time" \
-                    and (cur.shape or cur.tag == "data" or cur.kind == "array"):
+                    and (cur.shape or cur.tag == "data" or cur.kind in ("array", "quantity")) and cur.tag != "unit":
                 self._rebind_aliases(fr, cur, v)
             return None
         if isinstance(s, ast.Return):
